@@ -225,6 +225,8 @@ def random_args(rng):
 
 def gen_spec(prop, rng, tier):
     wl = gen.gen_workload(rng, weights=[25, 45, 12, 4, 2, 6, 6])
+    if rng.random() < 0.03:
+        wl = gen.gen_workload(rng, profile=rng.choice(['many', 'boundary']))       # > 512 records: array growth in every reader
     vg = 1 if rng.random() < (0.02 if tier == 'quick' else 0.06) else 0
     if vg and tier == 'quick' and wl['profile'] in ('hirsch', 'kmeans', 'medium', 'ratio'):
         vg = 0                         # memcheck is ~30x slower: quick tier keeps to small inputs
